@@ -187,7 +187,8 @@ def run_core(rep: Report, pid: str, *, n_designs: int, max_cycles: int, opts: li
     cases = []
     per = max(1, n_designs // len(opts))
     for k, opt in enumerate(opts):
-        seeds = [rep.seed * 1000003 + k * 100000 + i for i in range(per)]
+        weight = opt.pop("_weight", 1)     # a family that needs more designs to hit its corner
+        seeds = [rep.seed * 1000003 + k * 100000 + i for i in range(per * weight)]
         sticky = opt.pop("_sticky", 0.0) if "_sticky" in opt else 0.0
         cases += gen_cases(seeds, dict(opt), max_cycles, sticky)
     if only_raised:
